@@ -69,8 +69,6 @@ def quantized_decomposed_dequantize_per_tensor(
 @torch_op(
     (
         "quantized_decomposed::quantize_per_channel",
-        "quantized_decomposed::quantize_per_channel.tensor",
-        "quantized_decomposed::quantize_per_channel.tensor2",
     ),
     trace_only=True,
 )
@@ -108,8 +106,6 @@ def quantized_decomposed_quantize_per_channel(
 @torch_op(
     (
         "quantized_decomposed::dequantize_per_channel",
-        "quantized_decomposed::dequantize_per_channel.tensor",
-        "quantized_decomposed::dequantize_per_channel.tensor2",
     ),
     trace_only=True,
 )
